@@ -219,7 +219,8 @@ CHECKS["C17"] = dict(
 
 CHECKS["C03"] = dict(
   category="proof",
-  text="VCs over every function under contract (combinators, class forms, matching API): every implicit-exception exit (TypeError, "
+  text="VCs over every function under contract (combinators, class forms, matching API, class constructors / operators / core "
+       "operations, meta constructors - 122 functions): every implicit-exception exit (TypeError, "
        "IndexError, KeyError, AttributeError, ValueError ...) is proved infeasible and every raise is of a documented library class "
        "under exactly the documented condition, over the enumerated tagged-argument domain (wrong type, bool for int, None, float, "
        "negative, inverted, bad name, too few arguments) and all integers; emitted texts parse whenever the operands' do. Complete "
